@@ -28,8 +28,21 @@ type Recorder struct {
 	gates  map[string]chan struct{} // hook point (optionally "point@role") -> parked until the channel is closed
 	parked map[string]chan struct{} // signalled when a goroutine parks at the gate
 	watch  map[string]chan struct{} // hook point (optionally "point@role") -> signalled at every occurrence
+	hookN  int
+	fireAt int
+	fire   func()
 	maxD   time.Duration
 }
+
+// FireAt runs f (in its own goroutine) when the n-th hook point of the scenario is passed.
+func (r *Recorder) FireAt(n int, f func()) {
+	r.mu.Lock()
+	r.fireAt, r.fire = n, f
+	r.mu.Unlock()
+}
+
+// HookCount is the number of hook points passed so far.
+func (r *Recorder) HookCount() int { r.mu.Lock(); defer r.mu.Unlock(); return r.hookN }
 
 // Watch returns a channel that receives a token every time the hook point is passed.
 func (r *Recorder) Watch(key string) <-chan struct{} {
@@ -132,6 +145,11 @@ func hookVal(v interface{}) interface{} {
 func (r *Recorder) Sink(conn int, role string, ev string, kv []interface{}) {
 	// gates first (pre points park here), then perturbation, then the record
 	r.mu.Lock()
+	r.hookN++
+	if r.fire != nil && r.hookN == r.fireAt {
+		go r.fire()
+		r.fire = nil
+	}
 	g := r.gates[ev+"@"+role]
 	key := ev + "@" + role
 	if g == nil {
